@@ -99,7 +99,11 @@ def enumC01Days (out : IO.FS.Stream) : IO Unit := do
         if solarDayOk y m d then
           let j := jdn y m d
           let b := ofJdn j
-          buf := buf ++ s!"{y} {m} {d} {j} {weekOfJdn j} {j - j0} {fmt3 b} 1\n"
+          let x : Int × Int × Int := (y, m, d)
+          let n := ofJdn (j + 1)
+          let ord := if y = 9999 ∧ m = 12 ∧ d = 31 then "-" else
+            s!"{b01 (dayBefore x n)}{b01 (dayAfter x n)}{b01 (dayBefore n x)}{b01 (dayAfter n x)}{b01 (dayBefore x x)}{b01 (dayAfter x x)}"
+          buf := buf ++ s!"{y} {m} {d} {j} {weekOfJdn j} {j - j0} {fmt3 b} 1 {ord}\n"
     out.putStr buf
 
 /-- S stream (spec): the same lines produced from the specification alone:
@@ -113,7 +117,8 @@ def enumC01DaysSpec (out : IO.FS.Stream) : IO Unit := do
   let mut buf := ""
   let mut cnt : Nat := 0
   while Civil.valid x.1 x.2.1 x.2.2 do
-    buf := buf ++ s!"{x.1} {x.2.1} {x.2.2} {j} {w} {idx} {fmt3 x} 1\n"
+    let last := x.1 == 9999 && x.2.1 == 12 && x.2.2 == 31
+    buf := buf ++ s!"{x.1} {x.2.1} {x.2.2} {j} {w} {idx} {fmt3 x} 1 {if last then "-" else "100100"}\n"
     cnt := cnt + 1
     if cnt % 4096 == 0 then
       out.putStr buf
